@@ -191,7 +191,11 @@ impl Exec {
                     let after = used_all(&self.pools);
                     if after != want {
                         drift = Some((want, after));
-                        m.claim(&self.pools[p]);
+                        // only the recorded len-accounting finding is repaired in the harness;
+                        // `shrink_to_fit` (repaired in /repo d80671e) must simply be right
+                        if name != "ms" {
+                            m.claim(&self.pools[p]);
+                        }
                     }
                 }
             }
@@ -201,11 +205,19 @@ impl Exec {
             self.tag(&format!("{}:claimed", name));
         }
         if let Some((want, got)) = drift {
-            self.oracle.push(format!(
-                "KNOWN:finding:{}|MutableBuffer::{} on a claimed buffer left the pools at {} where the capacities say {}",
-                if name == "ms" { "mutshrink0-claimed" } else { "mutlen-claimed" },
-                match name { "tr" => "truncate", "rs" => "resize", "ms" => "shrink_to_fit", _ => "clear" }, got, want
-            ));
+            if name == "ms" {
+                // not a recorded finding any more: a plain oracle failure (and the model comparison
+                // of the same step disagrees too)
+                self.oracle.push(format!(
+                    "MutableBuffer::shrink_to_fit on a claimed buffer left the pools at {} where the capacities say {}",
+                    got, want
+                ));
+            } else {
+                self.oracle.push(format!(
+                    "KNOWN:finding:mutlen-claimed|MutableBuffer::{} on a claimed buffer left the pools at {} where the capacities say {}",
+                    match name { "tr" => "truncate", "rs" => "resize", _ => "clear" }, got, want
+                ));
+            }
         }
         Some("ok")
     }
